@@ -134,6 +134,15 @@ def evaluate(case):
     where = f"mode={mode} cfg={ {k: cfg[k] for k in ('order','method','polarized','time_like','init','mugrid','xgrid','degree','sv','xif','em_running','ratios')} }"
     sig = f"solve/identity/{mode}/{_classes(cfg)}"
     try:
+        if mode == "exact":
+            # decoy: another EKO in the same process with the same thresholds and initial scale but another initial
+            # nf, so that state kept between solves (a cache keyed too coarsely) shows up inside this very case
+            nf0 = cfg["init"][1]
+            dnf = nf0 + 1 if nf0 < 6 else nf0 - 1
+            try:
+                cards.solve_ops(dict(cfg, init=[cfg["init"][0], dnf], mugrid=[[cfg["mugrid"][0][0], dnf]]), tag="c01decoy")
+            except Exception:  # noqa - the decoy's own outcome is not judged here
+                pass
         ops = cards.solve_ops(cfg, tag="c01")
     except (NotImplementedError, ValueError) as e:
         res.outcome = f"refused:{type(e).__name__}"
